@@ -125,6 +125,37 @@ def _termination(n, m, c1, c2, term, at, st, titan):
     return V(True)
 
 
+def crlf_in_body(n: int, m: int, c1: int, c2: int, titan: bool) -> bool:
+    """
+    pre: 0 <= n <= 50 and 1 <= m <= 40 and 0 <= c1 <= c2 <= n + m + 12
+    post: _
+    """
+    # the body itself contains CRLFs: the header ends at the FIRST CRLF of the stream, wherever the reads are cut
+    # (in particular between the CR and the LF of the header terminator)
+    tail = b"\r\nZ\r\n"
+    stream = mk(STAT[0], Fill(m), b"\r\n", Fill(n), tail)
+    total = len(stream)
+    if c2 > total:
+        c2 = total
+    if c1 > c2:
+        c1 = c2
+    r = ProtoRun(titan)
+    r.feed(stream, [c1, c2])
+    r.close_clean()
+    o = r.outcome()
+    if o[0] != "result" or r.escaped is not None:
+        return V(False)
+    resp = o[1]
+    if resp.status != 20:
+        return V(False)
+    body = resp.body
+    if isinstance(body, str):
+        return V(False)                      # m >= 1: not a text type
+    if not isinstance(body, SymBuf):
+        body = SymBuf([body])
+    return V(len(body) == n + len(tail) and body.same_as(mk(Fill(n), tail)))
+
+
 def termination_success(n: int, m: int, c1: int, c2: int, term: int, at: int, titan: bool) -> bool:
     """
     pre: 0 <= n <= 3000 and 0 <= m <= 1100 and 0 <= c1 <= c2 <= at <= n + m + 5
@@ -346,6 +377,9 @@ OBLIGATIONS = [
     Ob("status_field", status_field, quick=200, thorough=600,
        symbolic="status field: 1..3 characters by symbolic index into '0123456789 +-x', with/without meta; both protocol classes",
        functions=FN, stubs=ST, note="discrete: int(str) is enumerated by the engine"),
+    Ob("crlf_in_body", crlf_in_body, quick=300, thorough=900,
+       symbolic="meta length 1..40, body of 0..50 filler bytes followed by CRLF Z CRLF, two cut offsets anywhere (incl. between the CR "
+                "and LF that end the header)", functions=FN, stubs=ST),
     Ob("termination_success", termination_success, quick=400, thorough=1500,
        symbolic="status 20; meta length 0..1100, body length 0..3000, two cut offsets, offset at which the server stops "
                 "(anywhere incl. inside the header), clean close / reset, both protocol classes; relational against the single-read run",
